@@ -7,6 +7,6 @@ UNITS = C01.UNITS
 LEVEL = C01.LEVEL; TECHNIQUE = C01.TECHNIQUE; FUNCTION_PATTERNS = C01.FUNCTION_PATTERNS; VALIDATE_VECTORS = 100
 def validation_queries(tier): return C01.validation_queries(tier)[:2]
 def queries(tier):   # every scenario with map() returning 0 at every call position; the history continues after the failure (recovery)
-    return C01.select(tier, lambda t: not t['lockset'] and t['faults'])
+    return C01.select(tier, lambda t: not t['lockset'] and not t['preempt'] and t['faults'])
 ASSUMPTIONS = C01.ASSUMPTIONS + ['one failing map() call per scenario (every position enumerated); after it mapping works again and the remaining operations of the scenario must succeed with all clauses intact']
 OUTSIDE = C01.OUTSIDE + ['two or more failing map() calls in one history']
